@@ -28,10 +28,11 @@ fn space(tier: Tier) -> &'static Space {
 /// hand-written texts covering productions the families do not print
 fn extra_texts() -> Vec<(String, String)> {
     let mut v: Vec<(String, String)> = crate::props::c15::PROGRAMS.iter().map(|(n, s)| (format!("c15:{n}"), s.to_string())).collect();
-    let more: [(&str, &str); 37] = [
+    let more: [(&str, &str); 38] = [
         // tokens that span several lines with blanks in front of an inner line break
         ("multiline_string_with_inner_trailing_blanks", "fn dsp() {\n  let s = \"left \n channel\t\nend\"\n  0.0\n}\n"),
         ("multiline_block_comment_with_inner_trailing_blanks", "fn dsp(x) {\n  /* half  \n     scale\t\n  */\n  x * 0.5\n}\n"),
+        ("macro_keyword", "macro m(x) {\n  `{ $x + 1.0 }\n}\nfn dsp(x) {\n  m!(`x)\n}\n"),
         ("double_minus", "fn dsp(x) {\n  let y = x\n  1.0 - -y + (- -y)\n}\n"),
         ("if_then_on_next_line", "fn dsp(x) {\n  let a = if (x > 0.5)\n    (1.0) else (2.0)\n  if (x > 0.5)\n    [1.0, a][0] else (2.0, 3.0).0\n}\n"),
         ("trailing_commas_with_comments", "fn f(a, b,) {\n  a + b\n}\nfn dsp(x) {\n  f(x, /* one */ 1.0, /* two */ )\n}\n"),
